@@ -20,7 +20,7 @@ func init() {
 			"selected by equality of its crontab; every matching link yields exactly one info (no break/return in the loop); (R3) the " +
 			"schedule task producer copies hook name, binding type, contexts, allowFailure, binding, group and queue name from the info; " +
 			"(R4) ScheduleLinks only under its mutex; (R5) link ids derive from a uuid generated per binding, so no two bindings share a " +
-			"link key or a reference-count id. NOT decided: firing behaviour of robfig/cron, 1:1 mapping of ticks to channel sends under " +
+			"link key or a reference-count id. (R6) every tick asks every schedule hook whether it handles the crontab now. NOT decided: firing behaviour of robfig/cron, 1:1 mapping of ticks to channel sends under " +
 			"back-pressure.",
 		Run: runC11,
 	})
